@@ -74,7 +74,14 @@ def _corrupt_serde(e):
     return False
 
 
-CORRUPTORS = {"Trace_Lang": _corrupt_lang, "Trace_Ctx": _corrupt_ctx, "Trace_Reg": _corrupt_reg,
+def _corrupt_panic(e):
+    if e.get("levels"):
+        e["levels"][len(e["levels"]) // 2] += 1
+        return True
+    return False
+
+
+CORRUPTORS = {"Trace_Panic": _corrupt_panic, "Trace_Lang": _corrupt_lang, "Trace_Ctx": _corrupt_ctx, "Trace_Reg": _corrupt_reg,
               "Trace_Types": _corrupt_types, "Trace_Serde": _corrupt_serde}
 
 
@@ -110,7 +117,12 @@ def _vc_types(v):
     return False
 
 
-VECTOR_CORRUPTORS = {"replay": _vc_lang, "replay-hist": _vc_hist, "replay-reg": _vc_reg, "replay-types": _vc_types}
+def _vc_panic(v):
+    v["sent"][0] += 1
+    return True
+
+
+VECTOR_CORRUPTORS = {"replay-panic": _vc_panic, "replay": _vc_lang, "replay-hist": _vc_hist, "replay-reg": _vc_reg, "replay-types": _vc_types}
 
 SH = dict(quick=1, thorough=8)
 
@@ -240,6 +252,22 @@ CHECKS = {
             mc("types", "MC_C15.tla", dict(quick="MC_C15_quick.cfg", thorough="MC_C15_thorough.cfg"), replay_cmd="replay-types", workers=4),
             mc("deep", "MC_C15.tla", "MC_C15_deep.cfg", replay_cmd="replay-types", workers=2),
             trace("random-types-and-schemes", "Trace_Types", ["gen-types"], 1500, 60000, shards=SH),
+        ],
+    ),
+    "C19": dict(
+        level="model_checking",
+        rule="every well-bracketed script of <= MaxLen steps over {enable, disable, enter, ret, panic, sethook, cont, bt} on one "
+             "thread, and every pair of such scripts on two threads under every interleaving at step granularity; in-model: Balance "
+             "(level = number of catching frames), OwnMessage, EscapeIffForwarded, Isolation (interleaved = alone). Every terminal "
+             "behaviour is executed for real on fresh threads (two-thread ones in lock-step with TLC's schedule) comparing catch_panic "
+             "results, backtrace queries, the nesting level after every step (hook), the count of panics reaching the previously "
+             "installed hook and escapes. Random 200-step scripts on 8 concurrent threads are validated by Trace_Panic.",
+        exhaustive=True,
+        assumptions=["fallback mode Abort is not executed (it terminates the process)", "the hook is installed before the scripts run (precondition of C19)"],
+        stages=[
+            mc("one-thread", "MC_C19.tla", dict(quick="MC_C19_1q.cfg", thorough="MC_C19_1t.cfg"), replay_cmd="replay-panic"),
+            mc("two-threads", "MC_C19.tla", dict(quick="MC_C19_2q.cfg", thorough="MC_C19_2t.cfg"), replay_cmd="replay-panic"),
+            trace("concurrent-scripts", "Trace_Panic", ["gen-panic", "--len", "200"], 6, 250, shards=dict(quick=1, thorough=4)),
         ],
     ),
     "C16": dict(
